@@ -21,7 +21,7 @@ def jobs(tier):
         add('free0-%d' % (nfree - 1), 0, nfree - 1, 99, 2 if q else 0, nproc=4)
         add('free%d' % nfree, nfree, nfree, 99, 2, nproc=16)
         if q:
-            lens = [0, 1, 2, 3, 5, 8, 15, 16, 17, 31, 32, 33, 34, 47, 48, 49, 63, 64, 65, 66, 70] if main_cfg else [1, 16, 17, 32, 33, 40]
+            lens = [0, 1, 2, 5, 15, 16, 17, 31, 32, 33, 48, 63, 64, 65, 70] if main_cfg else [1, 16, 17, 33]
         else:
             lens = list(range(0, 71)) if main_cfg else list(range(0, 71, 3))
         for n in lens:
